@@ -17,16 +17,21 @@ THEOREMS = [
 
 # The message grammar the model assumes (Model/Proto2.lean), as the ordered
 # list of connection / OT calls in the two functions.
-EXPECT_GARBLER = ["conn.SendData", "conn.SendUint32", "conn.SendUint32", "conn.SendLabel", "conn.SendLabel",
-                  "oti.InitSender", "conn.ReceiveUint32", "conn.ReceiveUint32", "oti.Send", "conn.ReceiveLabel",
-                  "conn.SendData", "conn.Flush"]
-EXPECT_EVALUATOR = ["conn.ReceiveData", "conn.ReceiveUint32", "conn.ReceiveUint32", "conn.ReceiveLabel",
-                    "conn.ReceiveLabel", "oti.InitReceiver", "conn.SendUint32", "conn.SendUint32", "conn.Flush",
-                    "oti.Receive", "conn.SendLabel", "conn.Flush", "conn.ReceiveData"]
-
-
-def calls(body):
-    return re.findall(r"\b((?:conn|oti)\.(?:Send\w*|Receive\w*|Flush|Init\w+))\(", vlib.strip_go_comments(body))
+# Extracted with `gofacts callseq` (harness/cmd/gofacts/callseq.go): source
+# order, same-package helpers inlined transitively, receivers named by their
+# declared type -- so renaming variables, extracting / inlining helpers or
+# changing loop forms does not change it, while adding, dropping or reordering
+# a message does.
+C = "p2p.Conn."
+EXPECT_GARBLER = [C + "SendData", C + "SendUint32", C + "SendUint32", C + "SendLabel", C + "SendLabel",
+                  "ot.OT.InitSender", C + "ReceiveUint32", C + "ReceiveUint32", "ot.OT.Send", C + "ReceiveLabel",
+                  C + "SendData", C + "Flush"]
+EXPECT_EVALUATOR = [C + "ReceiveData", C + "ReceiveUint32", C + "ReceiveUint32", C + "ReceiveLabel",
+                    C + "ReceiveLabel", "ot.OT.InitReceiver", C + "SendUint32", C + "SendUint32", C + "Flush",
+                    "ot.OT.Receive", C + "SendLabel", C + "Flush", C + "ReceiveData"]
+MSG_METHODS = ["SendData", "SendUint32", "SendLabel", "SendString", "SendByte", "SendUint16", "ReceiveData",
+               "ReceiveUint32", "ReceiveLabel", "ReceiveString", "ReceiveByte", "ReceiveUint16", "Flush", "InitSender",
+               "InitReceiver", "Send", "Receive"]
 
 
 def run(ctx):
@@ -36,12 +41,12 @@ def run(ctx):
     if ctx.tier == "thorough":
         ctx.leanchecker("MpcVerif.Props.C02")
     ctx.build_drv()
-    g = vlib.go_func_body("circuit/garbler.go", r"Garbler\(")
-    e = vlib.go_func_body("circuit/evaluator.go", r"Evaluator\(")
-    ctx.fact("message sequence of circuit.Garbler", calls(g or ""), EXPECT_GARBLER)
-    ctx.fact("message sequence of circuit.Evaluator", calls(e or ""), EXPECT_EVALUATOR)
-    ctx.fact("circuit.Garbler keeps its garbling alive (no Release) while it still uses the wire table",
-             len(re.findall(r"\.Release\(\)", vlib.strip_go_comments(g or ""))), 0)
+    ctx.fact("message sequence of circuit.Garbler (helpers inlined)", ctx.callseq("circuit", "Garbler", MSG_METHODS),
+             EXPECT_GARBLER)
+    ctx.fact("message sequence of circuit.Evaluator (helpers inlined)", ctx.callseq("circuit", "Evaluator", MSG_METHODS),
+             EXPECT_EVALUATOR)
+    ctx.fact("circuit.Garbler keeps its garbling alive (no Release, directly or in a helper) while it still uses the wire table",
+             ctx.callseq("circuit", "Garbler", ["Release"]), [])
     quick = ctx.tier == "quick"
     if ctx.build_hx():
         plan = [("ideal", 150 if quick else 3000), ("real", 35 if quick else 400), ("compiled", 36 if quick else 450),
@@ -59,7 +64,7 @@ def run(ctx):
         ctx.oblige("generator reached evaluator inputs beyond one OT-extension chunk (> 512 bits, not byte aligned) with real OT",
                    c.get("real_evaluator_input_over_512_bits_not_byte_aligned", 0) > 0,
                    "counters: %s" % {k: v for k, v in c.items() if "512" in k})
-        if ctx.broken and not ctx.fails:
+        if ctx.widen:
             for s in range(ctx.seed + 7000, ctx.seed + 7004):
                 for mode, n in (("ideal", 1500), ("real", 120)):
                     ops, out, meta = ctx.run_hx(mode, n, seed=s, tag="-widen", timeout=1500)
